@@ -1,6 +1,7 @@
 import MaestroVerif.Model.Expand
 import MaestroVerif.Lemmas.SubstLemmas
 import MaestroVerif.Lemmas.CsvLemmas
+import MaestroVerif.Lemmas.ExpandPlace
 
 /-!
 # C08 — Parameter expansion creates exactly the right instances and edges
@@ -9,9 +10,12 @@ Model: `Model/Expand.lean` (`Study.__init__`, `_stage`, combinations, naming),
 tied to the real loading / staging path by the study-expansion correspondence.
 The theorems below are about the named pieces of that model (`usesParam`,
 `directParams`, `usedOf`, `instName`, `paramValues`) which `stageStep` is built
-from; the whole-graph statement ("nodes and edges are exactly the declarative
-expansion") is evaluated on the real graph by the expansion monitor and is not
-yet a single refinement theorem — the level note says so.
+from, and (`C08_instance_depends_exactly`, `C08_unparameterised_depends_exactly`,
+`C08_combos_record`) about what creating one instance does to the graph: its dependency set is
+exactly the parents the property names, every other dependency set is untouched, the instance
+carries its combination's values.  The statement about the finished graph as a whole ("nodes and
+edges are exactly the declarative expansion") is evaluated on the real graph by the expansion
+monitor; it is not one refinement theorem - the level note says so.
 -/
 namespace MaestroVerif.C08
 open MaestroVerif.Expand MaestroVerif.Subst
@@ -238,5 +242,150 @@ example : instName "run".toList ["SIZE".toList, "ITER".toList] (combo demoParams
     "run_ITER.5.SIZE.20".toList ∧
     instName "post".toList ["ITER".toList] (combo demoParams 0) =
       instName "post".toList ["ITER".toList] (combo demoParams 1) := by decide
+
+theorem sortDedup_isEmpty (l : List Str) : (sortDedup l).isEmpty = l.isEmpty := by
+  cases l with
+  | nil => rfl
+  | cons a as =>
+    have : a ∈ sortDedup (a :: as) := mem_sortDedup.mpr (List.mem_cons_self ..)
+    cases h : sortDedup (a :: as) with
+    | nil => rw [h] at this; cases this
+    | cons _ _ => rfl
+
+/-- **An instance depends on the same-combination instance of each ordinary dependency and on
+all instances of each funnel dependency, and on nothing else** - for the instance created for
+step `st` and parameter row `row` (`c` its combination), whatever order sets are iterated in:
+right after it is placed its dependency set holds `_source` when the step has no dependency at
+all, and otherwise exactly the instances `instName p used(p) c` of its ordinary dependencies `p`
+and every instance recorded for each of its funnel dependencies; the dependency set of every
+other instance is untouched; and the instance list has grown by this instance, carrying this
+combination's values of the used parameters, unless an instance of that name existed. -/
+theorem C08_instance_depends_exactly (spec : Spec) {ord : List Str → List Str} (ho : IsPermOracle ord)
+    (st : Step) (used : List Str) (s s' : SS) (row : Nat)
+    (hnew : s.combos.any (·.1 == instName st.name used (combo spec.params row)) = false)
+    (hself : st.name ∉ hubOf st)
+    (h : stageRow spec ord st used s row = .ok s') :
+    (∀ x, x ∈ getAssoc s'.g.deps (instName st.name used (combo spec.params row)) ↔
+      if depsOf st = [] ∧ hubOf st = [] then x = SOURCE
+      else ((∃ p, p ∈ depsOf st ∧ x = instName p (getAssoc s.used p) (combo spec.params row)) ∨
+            (∃ hb, hb ∈ hubOf st ∧ x ∈ getAssoc s.combos hb))) ∧
+    (∀ k, k ≠ instName st.name used (combo spec.params row) →
+      ∀ x, x ∈ getAssoc s'.g.deps k ↔ x ∈ getAssoc s.g.deps k) ∧
+    (∃ inst : Inst, inst.name = instName st.name used (combo spec.params row) ∧
+      inst.params = (combo spec.params row).paramValues used ∧
+      s'.g.insts = if s.g.hasNode inst.name then s.g.insts else s.g.insts ++ [inst]) := by
+  unfold stageRow at h
+  simp only [hnew, Bool.false_eq_true, ↓reduceIte] at h
+  split at h
+  · cases h
+  · rename_i cmd r _
+    obtain ⟨p1, p2, p3, _⟩ := place_exact ho _ _ _ _ _ _ h
+    refine ⟨?_, ?_, ⟨_, rfl, rfl, p3⟩⟩
+    · intro x
+      rw [p1]
+      simp only [wiredTo, Bool.and_eq_true, sortDedup_isEmpty, List.isEmpty_iff]
+      by_cases hr : depsOf st = [] ∧ hubOf st = []
+      · simp only [hr, and_self, ↓reduceIte]
+      · simp only [hr, ↓reduceIte]
+        constructor
+        · rintro (hx | ⟨hb, h1, h2⟩)
+          · simp only [List.mem_map] at hx
+            obtain ⟨p, hp, rfl⟩ := hx
+            exact Or.inl ⟨p, mem_sortDedup.mp hp, rfl⟩
+          · have hb' := mem_sortDedup.mp h1
+            have hne : hb ≠ st.name := fun e => hself (e ▸ hb')
+            rw [getAssoc_setAssoc_ne _ _ _ _ hne] at h2
+            exact Or.inr ⟨hb, hb', h2⟩
+        · rintro (⟨p, hp, rfl⟩ | ⟨hb, h1, h2⟩)
+          · exact Or.inl (List.mem_map.mpr ⟨p, mem_sortDedup.mpr hp, rfl⟩)
+          · have hne : hb ≠ st.name := fun e => hself (e ▸ h1)
+            refine Or.inr ⟨hb, mem_sortDedup.mpr h1, ?_⟩
+            rw [getAssoc_setAssoc_ne _ _ _ _ hne]; exact h2
+    · intro k hk x
+      exact p2 k hk x
+
+/-- the same for a step that uses no parameter: one instance, named like the step, depending on
+`_source` or on exactly its ordinary dependencies (which use no parameter either, see
+`C08_used_closure`) and every instance of each funnel dependency -/
+theorem C08_unparameterised_depends_exactly (spec : Spec) {ord : List Str → List Str}
+    (ho : IsPermOracle ord) (st : Step) (s s' : SS)
+    (hu : usedOf spec s.used st = .ok []) (hself : st.name ∉ hubOf st)
+    (h : stageStep spec ord s st = .ok s') :
+    (∀ x, x ∈ getAssoc s'.g.deps st.name ↔
+      if depsOf st = [] ∧ hubOf st = [] then x = SOURCE
+      else (x ∈ depsOf st ∨ ∃ hb, hb ∈ hubOf st ∧ x ∈ getAssoc s.combos hb)) ∧
+    (∀ k, k ≠ st.name → ∀ x, x ∈ getAssoc s'.g.deps k ↔ x ∈ getAssoc s.g.deps k) ∧
+    (∃ inst : Inst, inst.name = st.name ∧ inst.params = [] ∧
+      s'.g.insts = if s.g.hasNode inst.name then s.g.insts else s.g.insts ++ [inst]) := by
+  unfold stageStep at h
+  simp only [hu, List.isEmpty_nil, ↓reduceIte] at h
+  split at h
+  · cases h
+  · obtain ⟨p1, p2, p3, _⟩ := place_exact ho _ _ _ _ _ _ h
+    refine ⟨?_, ?_, ⟨_, rfl, rfl, p3⟩⟩
+    · intro x
+      rw [p1]
+      simp only [wiredTo, Bool.and_eq_true, sortDedup_isEmpty, List.isEmpty_iff]
+      by_cases hr : depsOf st = [] ∧ hubOf st = []
+      · simp only [hr, and_self, ↓reduceIte]
+      · simp only [hr, ↓reduceIte]
+        constructor
+        · rintro (hx | ⟨hb, h1, h2⟩)
+          · exact Or.inl (mem_sortDedup.mp hx)
+          · have hb' := mem_sortDedup.mp h1
+            have hne : hb ≠ st.name := fun e => hself (e ▸ hb')
+            rw [getAssoc_setAssoc_ne _ _ _ _ hne, getAssoc_setAssoc_ne _ _ _ _ hne] at h2
+            exact Or.inr ⟨hb, hb', h2⟩
+        · rintro (hx | ⟨hb, h1, h2⟩)
+          · exact Or.inl (mem_sortDedup.mpr hx)
+          · have hne : hb ≠ st.name := fun e => hself (e ▸ h1)
+            refine Or.inr ⟨hb, mem_sortDedup.mpr h1, ?_⟩
+            rw [getAssoc_setAssoc_ne _ _ _ _ hne, getAssoc_setAssoc_ne _ _ _ _ hne]; exact h2
+    · intro k hk x
+      exact p2 k hk x
+
+/-- the table the funnel edges are read from records the instances of a step as they are created -/
+theorem C08_combos_record (spec : Spec) (ord : List Str → List Str) (st : Step) (used : List Str)
+    (s s' : SS) (row : Nat)
+    (hnew : s.combos.any (·.1 == instName st.name used (combo spec.params row)) = false)
+    (h : stageRow spec ord st used s row = .ok s') :
+    (∀ x, x ∈ getAssoc s'.combos st.name ↔
+      (x ∈ getAssoc s.combos st.name ∨ x = instName st.name used (combo spec.params row))) ∧
+    (∀ k, k ≠ st.name → getAssoc s'.combos k = getAssoc s.combos k) := by
+  unfold stageRow at h
+  simp only [hnew, Bool.false_eq_true, ↓reduceIte] at h
+  split at h
+  · cases h
+  · unfold place at h
+    split at h
+    · cases h
+    · simp only [Except.ok.injEq] at h
+      subst h
+      simp only
+      refine ⟨fun x => ?_, fun k hk => getAssoc_setAssoc_ne _ _ _ _ hk⟩
+      rw [getAssoc_setAssoc_self, mem_union]
+      simp
+
+/-! non-vacuity: in the expansion of a parameterised study with a funnel, `run_SIZE.10` depends on
+`pre` only, `post` on `pre` and on every instance of `run` -/
+def demoSpec : Spec :=
+  { root := "/out".toList, hashWs := false, rlimit := 1,
+    params := [{ key := "SIZE".toList, name := "SIZE".toList, tmpl := some "SIZE.%%".toList, labels := [],
+                 values := ["10".toList, "20".toList] }],
+    steps := [{ name := "pre".toList, cmd := "echo pre".toList, restart := [], depends := [],
+                texts := ["echo pre".toList], extras := [] },
+              { name := "run".toList, cmd := "echo $(SIZE)".toList, restart := [], depends := ["pre".toList],
+                texts := ["echo $(SIZE)".toList], extras := [] },
+              { name := "post".toList, cmd := "echo post".toList, restart := [],
+                depends := ["run_*".toList, "pre".toList], texts := ["echo post".toList], extras := [] }],
+    md5 := [] }
+
+example : (match stage demoSpec id with
+    | .ok r =>
+      getAssoc r.deps "pre".toList == ["_source".toList]
+        && getAssoc r.deps "run_SIZE.10".toList == ["pre".toList]
+        && getAssoc r.deps "post".toList == ["pre".toList, "run_SIZE.10".toList, "run_SIZE.20".toList]
+        && (r.insts.map (·.params)) == [[], [("SIZE".toList, "10".toList)], [("SIZE".toList, "20".toList)], []]
+    | .error _ => false) = true := by decide +kernel
 
 end MaestroVerif.C08
